@@ -70,7 +70,7 @@ namespace RecInt
         rmint(const rmint<K, MGI>& c) : Value(c.Value) { reduction(*this); }
         rmint(const rmint<K, MGA>& c) : Value(get_ruint(c)) { reduction(*this); }
         template <typename T, __RECINT_IS_UNSIGNED(T, int) = 0> rmint(const T b) : Value(b) { mod_n(Value, p); }
-        template <typename T, __RECINT_IS_SIGNED(T, int) = 0>   rmint(const T b) : Value((b < 0)? -b : b)
+        template <typename T, __RECINT_IS_SIGNED(T, int) = 0>   rmint(const T b) : Value(rm_magnitude(b))
         { mod_n(Value, p); if (b < 0 && Value != 0) sub(Value, p, Value); }
         rmint(const double& b) : Value((b < 0)? -b : b)
         { mod_n(Value, p); if (b < 0 && Value != 0) sub(Value, p, Value); }
